@@ -182,8 +182,9 @@ class C02Bounded(Bounded):
             for n, sh in work:
                 rnd = random.Random(f"{seed}:{sh}")
                 combos = list(itertools.product(operands, repeat=n))
-                if len(combos) > (60 if tier == "quick" else 400):
-                    combos = rnd.sample(combos, 60 if tier == "quick" else 400)
+                cap = 60 if tier == "quick" else (400 if n <= 3 else 100)
+                if len(combos) > cap:
+                    combos = rnd.sample(combos, cap)
                 for ops_ in combos:
                     expr = sh.format(*ops_)
                     ev += 1
